@@ -17,7 +17,8 @@ MANIFEST_ENTRY = {
                 "exactly that content (Python's literal lexing is specified in Lean); C17_nat: Nat literals are written as decimal "
                 "literals Python accepts with the same value; the transcription is tied to the Rust code on HIRs built by the real "
                 "front end. Whole-script behaviour (part ii) is NOT proved: it is checked differentially (transpile, compile, run under "
-                "the target interpreter, compare stdout and exit status with erg run) on generated literal programs and on every "
+                "the target interpreter, compare stdout and exit status with the compiled bytecode) on generated literal programs, on "
+                "programs of the checked fragment (vlib/fraggen.py, with an independent Python reading as oracle) and on every "
                 "examples/ and tests/should_ok program the transpiler accepts."},
     "level_note": "partial: the theorem covers string/Nat/Int literals only; semantic preservation of PyScriptGenerator on the fragment "
                   "(C17_sem of DESIGN section 8) is not proved — no Lean transcription of the script generator beyond literals exists; "
@@ -31,14 +32,15 @@ MANIFEST_ENTRY = {
 PY = core.PYTHONS["3.11"]
 
 # known behavioural differences between the transpiled script and the bytecode on corpus programs (recorded, not fixed);
-# id (known_findings.json) -> {corpus file (relative to the repository): recorded outcome}
+# id (known_findings.json) -> {corpus file (relative to the repository): recorded outcome ':' exception class of the script}
+# a program counts as known only with exactly this outcome and signature (structural feature = the program, failure signature = the class)
 BEHAVIOUR_FINDINGS = {
-    'C17-stmt-in-expr-position': {'examples/record.er': 'invalid-python', 'examples/with.er': 'invalid-python', 'tests/should_ok/coercion.er': 'invalid-python', 'tests/should_ok/mut_dict.er': 'invalid-python', 'tests/should_ok/assert_cast.er': 'invalid-python', 'tests/should_ok/return.er': 'invalid-python'},
-    'C17-attr-assign-wrapped': {'examples/a11y.er': 'invalid-python', 'tests/should_ok/class_attr.er': 'invalid-python'},
-    'C17-class-and-trait': {'examples/impl.er': 'differs', 'examples/structural.er': 'differs', 'examples/trait.er': 'differs', 'tests/should_ok/structural.er': 'differs'},
-    'C17-name-mangling': {'examples/dict.er': 'differs', 'examples/quantified.er': 'differs', 'examples/iterator.er': 'differs', 'examples/patch.er': 'differs', 'tests/should_ok/comment.er': 'differs', 'tests/should_ok/sym_op.er': 'differs'},
-    'C17-call-arguments': {'tests/should_ok/args_expansion.er': 'differs', 'tests/should_ok/var_args.er': 'differs', 'tests/should_ok/var_kwargs.er': 'differs', 'tests/should_ok/default_param.er': 'differs'},
-    'C17-type-objects': {'tests/should_ok/dyn_type_check.er': 'differs', 'tests/should_ok/map.er': 'differs'},
+    'C17-stmt-in-expr-position': {'examples/record.er': 'invalid-python:SyntaxError', 'examples/with.er': 'invalid-python:SyntaxError', 'tests/should_ok/coercion.er': 'invalid-python:SyntaxError', 'tests/should_ok/mut_dict.er': 'invalid-python:SyntaxError', 'tests/should_ok/assert_cast.er': 'invalid-python:SyntaxError', 'tests/should_ok/return.er': 'invalid-python:SyntaxError'},
+    'C17-attr-assign-wrapped': {'examples/a11y.er': 'invalid-python:SyntaxError', 'tests/should_ok/class_attr.er': 'invalid-python:SyntaxError'},
+    'C17-class-and-trait': {'examples/impl.er': 'differs:AttributeError', 'examples/structural.er': 'differs:AttributeError', 'examples/trait.er': 'differs:NameError', 'tests/should_ok/structural.er': 'differs:NameError'},
+    'C17-name-mangling': {'examples/dict.er': 'differs:NameError', 'examples/quantified.er': 'differs:NameError', 'examples/iterator.er': 'differs:NameError', 'examples/patch.er': 'differs:NameError', 'tests/should_ok/comment.er': 'differs:NameError', 'tests/should_ok/sym_op.er': 'differs:NameError'},
+    'C17-call-arguments': {'tests/should_ok/args_expansion.er': 'differs:TypeError', 'tests/should_ok/var_args.er': 'differs:TypeError', 'tests/should_ok/var_kwargs.er': 'differs:TypeError', 'tests/should_ok/default_param.er': 'differs:TypeError'},
+    'C17-type-objects': {'tests/should_ok/dyn_type_check.er': 'differs:AssertionError', 'tests/should_ok/map.er': 'differs:TypeError'},
 }
 
 
@@ -196,6 +198,8 @@ def one_program(erg, env, work, name, src, path, oracle=None):
                     "bytecode_equals_oracle": (oo == ob and (ro == 0) == (rb == 0))})
     if 124 in (rcc, rb, rs):
         return "skipped", det       # a timeout under machine load is not an observation
+    from vlib.fragrun import exc_class
+    det["signature"] = exc_class(ec if rcc != 0 else es)
     if rcc != 0:
         return "invalid-python", det
     if os_ == ob and rs == rb:
@@ -238,7 +242,7 @@ def behavioural(ctx, bindir):
                 samples.append({"program": name, "stdout": det["bytecode_stdout"][:100], "exit": det["bytecode_exit"]})
             if name in recorded:
                 fid, kind = recorded[name]
-                if outcome == kind:
+                if outcome + ":" + det.get("signature", "") == kind:
                     seen_known.setdefault(fid, []).append(name)
                     stats["known-finding"] = stats.get("known-finding", 0) + 1
                     continue
